@@ -764,7 +764,8 @@ class SpanNot(SpanBiQuery):
             super(SpanNot._Matcher, self).__init__(amm)
 
         def _get_spans(self):
-            if self.a.id() == self.b.id():
+            # b may have run out (or never had) postings in this segment
+            if self.b.is_active() and self.a.id() == self.b.id():
                 spans = []
                 bspans = self.b.spans()
                 for aspan in self.a.spans():
